@@ -6,6 +6,7 @@ R3 time-zone independent date codecs (shared lint hipposa.tzlint)
 R4 switch fields exist / precede; switch-table keys are enum members
 R5 Block-level cache coherence (Block.__setitem__ / serialize_var)
 R6 pod flag forwarded to delegated decoders / readers
+R7 str()-built plain-data forms agree with the field table (order, separators, no trimming)
 """
 from __future__ import annotations
 
@@ -943,6 +944,74 @@ def _field_of_fun(repo: Repo, mod: Module, fun: Optional[ast.AST]) -> Optional[s
     return None
 
 
+
+_VARIABLE_SPECS = ("CStr", "Str", "ByteArray", "BytesGreedy", "BytesTerminated", "Collection", "TypedByteArray",
+                   "TypedBytesGreedy", "TypedBytesTerminated", "BinaryLLSD", "OptionalPrefixed", "OptionalFlagged",
+                   "IfPresent", "LengthSwitch", "NumPyArray")
+
+
+def _template_shape(repo: Repo, mod: Module, owner: Optional[ClassInfo], node: ast.AST):
+    """(keys in order, may-be-fixed-size) of a TEMPLATES row: se.Template({...}) / se.Dataclass(X); None for
+    UNSERIALIZABLE rows; raises when the row cannot be read."""
+    node, m2 = _deref(repo, mod, owner, node)
+    if isinstance(node, ast.Attribute) and node.attr == "UNSERIALIZABLE" or isinstance(node, ast.Name) and node.id == "UNSERIALIZABLE":
+        return None
+    if isinstance(node, ast.Call):
+        k = _resolve_cls(repo, m2, node.func)
+        if k is not None and k.name == "Template" and node.args:
+            d, m3 = _deref(repo, m2, owner, node.args[0])
+            if isinstance(d, ast.Dict):
+                keys = _flat_keys(repo, m3, d)
+                if keys is not None:
+                    variable = any(isinstance(x, (ast.Name, ast.Attribute)) and (ap(x) or "").split(".")[-1] in _VARIABLE_SPECS
+                                   for v in d.values for x in ast.walk(v))
+                    return keys, not variable
+        if k is not None and k.name == "Dataclass" and node.args:
+            dc = _resolve_cls(repo, m2, node.args[0])
+            if dc is not None:
+                keys = [st.target.id for c in reversed(repo.mro(dc)) for st in c.node.body
+                        if isinstance(st, ast.AnnAssign) and isinstance(st.target, ast.Name)]
+                variable = any(isinstance(x, (ast.Name, ast.Attribute)) and (ap(x) or "").split(".")[-1] in _VARIABLE_SPECS
+                               for c in repo.mro(dc) for x in ast.walk(c.node))
+                return keys, not variable
+    if isinstance(node, ast.Call):
+        return None        # a non-mapping spec (Collection, adapter, ...): its value has no keys that could nest
+    raise AnalysisError(f"C09.R4: TEMPLATES row {norm(node)} of a non-strict switched serializer is not analysable")
+
+
+def _strict_mode_check(ctx, ci: ClassInfo, towner: ClassInfo, tdict: ast.Dict, tmod: Module):
+    """Non-strict mode: a payload the flagged template rejects is decoded with the template guessed from its
+    SIZE, while encoding keeps the flagged template as long as it does not raise - and Template.serialize ignores
+    surplus keys.  So if the flagged template A's keys are contained in those of another, size-guessable template
+    B, a B-sized payload decodes as B and re-encodes (truncated) as A.  Strict serializers reject such payloads."""
+    repo = ctx.repo
+    snode, sowner = _class_attr_node(repo, ci, "STRICT")
+    strict = ConstEval(repo, sowner.module).ev(snode) if snode is not None else True
+    where = ctx.w(sowner.module if sowner else ci.module, snode if snode is not None else ci.node)
+    if strict is True:
+        ctx.ob("C09.R4", f"{ci.name}: template choice agrees between decode and encode", True, where, "strict mode")
+        return
+    if strict is not False:
+        raise AnalysisError(f"C09.R4: {ci.name}.STRICT is not a boolean constant")
+    shapes = []
+    seen_nodes = set()
+    for v in tdict.values:
+        tgt, _ = _deref(repo, tmod, towner, v)
+        if id(tgt) in seen_nodes:
+            continue
+        seen_nodes.add(id(tgt))
+        sh = _template_shape(repo, tmod, towner, v)
+        if sh is not None:
+            shapes.append((norm(v)[:60], sh[0], sh[1]))
+    clash = [(a, b) for a, ka, _ in shapes for b, kb, fixed_b in shapes
+             if a != b and fixed_b and set(ka) <= set(kb) and ka != kb]
+    ctx.ob("C09.R4", f"{ci.name}: template choice agrees between decode and encode", not clash, where,
+           f"STRICT = False: decode guesses the template from the payload size but encode keeps the flagged one; the "
+           f"keys of {clash[0][0] if clash else ''} are contained in those of the size-guessable "
+           f"{clash[0][1] if clash else ''}, so such a payload decodes with the larger template and re-encodes "
+           f"truncated with the flagged one")
+
+
 def r4(ctx, regs: List[Reg], tmpl):
     repo = ctx.repo
     ctx.rule("C09.R4", "switch fields exist and precede: ENUM_FIELD/FLAG_FIELD name a sibling template variable; "
@@ -996,6 +1065,8 @@ def r4(ctx, regs: List[Reg], tmpl):
                     badk.append(norm(k) if k is not None else "**spread")
             ctx.ob("C09.R4", f"{ci.name}.TEMPLATES keys are enum members", not badk, ctx.w(tmod, tnode2),
                    f"keys {badk[:5]} do not resolve to members of an enum class")
+            if base == "EnumSwitchedSubfieldSerializer":
+                _strict_mode_check(ctx, ci, towner, tnode2, tmod)
     ctx.floor("C09.R4", "switched serializer registrations", nsw, 3)
 
     # (b) context-dependent specs inside templates / dataclasses / registered adapters
@@ -1297,6 +1368,141 @@ def r6(ctx):
     ctx.floor("C09.R6", "pod delegation sites", n, 8)
 
 
+# ------------------------------------------------------------------------------------------ R7
+
+_STR_TRANSFORMS = ("strip", "rstrip", "lstrip", "lower", "upper", "title", "capitalize", "casefold", "replace", "expandtabs",
+                   "removeprefix", "removesuffix", "ljust", "rjust", "center", "zfill", "swapcase", "translate")
+
+
+def _spec_terminators(repo: Repo, mod: Module, node: ast.AST) -> Optional[Set[str]]:
+    """Terminator characters of a CStr(terminators=(b" ", ...)) spec expression (through names / small field
+    helpers); None when not resolvable."""
+    node, m2 = _deref(repo, mod, None, node)
+    if not isinstance(node, ast.Call):
+        return None
+    t = kw(node, "terminators")
+    if t is not None:
+        v = ConstEval(repo, m2).ev(t)
+        if isinstance(v, (tuple, list)) and all(isinstance(x, bytes) for x in v):
+            return {x.decode("latin1") for x in v}
+        return None
+    for a in list(node.args) + [k.value for k in node.keywords]:
+        r = _spec_terminators(repo, m2, a)
+        if r is not None:
+            return r
+    # field helper defined in the module: follow its return expression
+    if isinstance(node.func, ast.Name):
+        for f in repo.funcs.get(node.func.id, []):
+            if f.module is m2 and f.cls is None:
+                for rt in [n for n in walk(f.node) if isinstance(n, ast.Return) and n.value is not None]:
+                    r = _spec_terminators(repo, m2, rt.value)
+                    if r is not None:
+                        return r
+    return None
+
+
+def r7(ctx):
+    """Plain-data form built by str(<dataclass>) and written back verbatim: __str__ is the second implementation
+    of the wire grammar and has to agree with the field table."""
+    repo = ctx.repo
+    ctx.rule("C09.R7", "a dataclass whose str() is handed out as the plain-data form (and written back verbatim) "
+                       "renders exactly its serialized fields, in template order, joined by one terminator "
+                       "character, with no trimming or case folding of the result")
+    builders = []
+    for f in repo.all_funcs:
+        if f.parent_fn is not None or not f.module.rel.startswith("hippolyzer/lib/base/") or f.name != "deserialize":
+            continue
+        for c in calls(f.node, into_defs=True):
+            if ap(c.func) == "str" and len(c.args) == 1 and isinstance(c.args[0], ast.Call):
+                k = _resolve_cls(repo, f.module, c.args[0].func)
+                if k is not None and "__str__" in k.methods and any(
+                        isinstance(st, ast.AnnAssign) and isinstance(st.value, ast.Call) for st in k.node.body):
+                    if any(ap(e) is not None and ap(e).endswith("pod") for e, pol in facts(c, f.node) if pol):
+                        builders.append((f, c, k))
+    ctx.stats["C09.R7.pod-string builders"] = len(builders)
+    if not builders:
+        ctx.note("C09.R7: no deserialize hands out str(<dataclass>) as its plain-data form any more; nothing to check")
+        ctx.ob("C09.R7", "no str()-built plain-data form in the codec modules", True, "hippolyzer/lib/base")
+        return
+    for f, c, k in builders:
+        sf = k.methods["__str__"]
+        where = sf.where
+        fields = []
+        for st in k.node.body:
+            if isinstance(st, ast.AnnAssign) and isinstance(st.target, ast.Name) and isinstance(st.value, ast.Call):
+                fields.append((st.target.id, st.value))
+        rets = [n for n in walk(sf.node) if isinstance(n, ast.Return) and n.value is not None]
+        tag = f"{k.name}.__str__ (plain-data form of {f.qual})"
+        if len(rets) != 1:
+            ctx.note(f"C09.R7: {where} {k.name}.__str__ has {len(rets)} return statements; shape not checked")
+            ctx.ob("C09.R7", f"{tag}: shape recognised", True, where, "not a single-expression __str__")
+            continue
+        e = rets[0].value
+        transforms = []
+        while isinstance(e, ast.Call) and isinstance(e.func, ast.Attribute) and e.func.attr in _STR_TRANSFORMS:
+            transforms.append(e.func.attr)
+            e = e.func.value
+        parts: Optional[List[Tuple[str, object]]] = None      # ('field', name) / ('text', str)
+        if isinstance(e, ast.JoinedStr):
+            parts = []
+            for v in e.values:
+                if isinstance(v, ast.Constant) and isinstance(v.value, str):
+                    parts.append(("text", v.value))
+                elif isinstance(v, ast.FormattedValue) and v.conversion == -1 and v.format_spec is None \
+                        and isinstance(v.value, ast.Attribute) and isinstance(v.value.value, ast.Name) \
+                        and v.value.value.id == "self":
+                    parts.append(("field", v.value.attr))
+                else:
+                    parts.append(("other", norm(v)))
+        elif isinstance(e, ast.Call) and isinstance(e.func, ast.Attribute) and e.func.attr == "join" \
+                and isinstance(e.func.value, ast.Constant) and isinstance(e.func.value.value, str) and len(e.args) == 1 \
+                and isinstance(e.args[0], (ast.Tuple, ast.List)):
+            parts = []
+            for i, el in enumerate(e.args[0].elts):
+                if i:
+                    parts.append(("text", e.func.value.value))
+                inner = el.args[0] if isinstance(el, ast.Call) and ap(el.func) == "str" and len(el.args) == 1 else el
+                if isinstance(inner, ast.Attribute) and isinstance(inner.value, ast.Name) and inner.value.id == "self":
+                    parts.append(("field", inner.attr))
+                else:
+                    parts.append(("other", norm(el)))
+        if parts is None:
+            ctx.note(f"C09.R7: {where} shape of {k.name}.__str__ ({norm(e)}) not recognised; agreement not checked")
+            ctx.ob("C09.R7", f"{tag}: shape recognised", True, where, "unrecognised shape")
+            continue
+        ctx.ob("C09.R7", f"{tag}: result is not trimmed or case-folded", not transforms, where,
+               f".{'/.'.join(transforms)}() is applied to the rendered text, but the plain-data encoder writes the "
+               f"string back verbatim: characters of a field value that the wire grammar keeps are lost")
+        got = [n for kind, n in parts if kind == "field"]
+        want = [n for n, _ in fields]
+        ctx.ob("C09.R7", f"{tag}: renders the serialized fields in template order", got == want and
+               not any(kind == "other" for kind, _ in parts), where,
+               f"__str__ renders {got}{' + ' + str([n for kd, n in parts if kd == 'other']) if any(kd == 'other' for kd, _ in parts) else ''}, "
+               f"the field table is {want}")
+        # separators: exactly one character, a terminator of the preceding field's spec; nothing before / after
+        bad = []
+        if parts and parts[0][0] == "text":
+            bad.append(f"leading text {parts[0][1]!r}")
+        if parts and parts[-1][0] == "text":
+            bad.append(f"trailing text {parts[-1][1]!r}")
+        for i, (kind, txt) in enumerate(parts):
+            if kind != "text" or i == 0 or i == len(parts) - 1:
+                continue
+            prev = parts[i - 1]
+            terms = None
+            if prev[0] == "field":
+                spec = next((v for n, v in fields if n == prev[1]), None)
+                terms = _spec_terminators(repo, k.module, spec) if spec is not None else None
+            if len(txt) != 1 or (terms is not None and txt not in terms):
+                bad.append(f"separator {txt!r} after {prev[1]}" + (f" (terminators {sorted(terms)})" if terms else ""))
+        for i in range(1, len(parts)):
+            if parts[i][0] == "field" and parts[i - 1][0] == "field":
+                bad.append(f"no separator between {parts[i - 1][1]} and {parts[i][1]}")
+        ctx.ob("C09.R7", f"{tag}: fields are joined by exactly one terminator character", not bad, where,
+               f"{bad[:3]}: the wire reader splits fields at the first terminator, so the string written back would "
+               f"parse into different fields")
+
+
 # ------------------------------------------------------------------------------------------ driver
 
 def run(ctx):
@@ -1310,6 +1516,7 @@ def run(ctx):
     r4(ctx, regs, tmpl)
     r5(ctx)
     r6(ctx)
+    r7(ctx)
     ctx.assume("byte-for-byte fixed points of the ~200 serializers on generated payloads and the 'printed form "
                "evaluates back' clause are not decided statically")
     ctx.assume("Python semantics encoded: enum.IntFlag(negative) / IntFlag.__or__ are not value preserving on "
